@@ -91,6 +91,7 @@ def gen_nearmiss(seed, i):
     p["args"] = {}
     builders = [b["name"] for b in p["files"]["laze-project.yml"][0]["builders"]]
     mods = sorted({m["name"] for kind, m, path in projcheck.yaml_modules(p) if kind == "modules"}) or ["m0"]
+    apps = sorted({m["name"] for kind, m, path in projcheck.yaml_modules(p) if kind == "apps"}) or ["a0"]
     m0, m1 = mods[0], mods[-1]
     v = rng.choice(["LIBS", "CFLAGS", "X"])
     pairs = [({"define": [v + "=zz"]}, {"define": [v + "+=zz"]}),
@@ -100,7 +101,11 @@ def gen_nearmiss(seed, i):
              ({"select": ["?" + m0]}, {"select": [m0]}),
              ({"disable": [m0]}, {"select": ["?" + m0]}),
              ({}, {"partition": "count:1/2"}), ({"partition": "count:1/2"}, {"partition": "count:2/2"}), ({"partition": "count:1/2"}, {"partition": "hash:1/2"}),
-             ({"builders": builders[:1]}, {"builders": builders})]
+             ({"builders": builders[:1]}, {"builders": builders}),
+             # a partition is a slice of the tuple sequence *after* selection: a narrower selection re-slices
+             ({"partition": "count:1/2"}, {"partition": "count:1/2", "apps": apps[-1:]}),
+             ({"partition": "count:2/2"}, {"partition": "count:2/2", "builders": builders[-1:]}),
+             ({"partition": "count:1/2", "builders": builders}, {"partition": "count:1/2", "builders": builders[-1:], "apps": apps[-1:]})]
     a, b = pairs[i % len(pairs)]
     if rng.random() < 0.5:
         a, b = b, a
